@@ -21,9 +21,12 @@ import (
 	"sync"
 	"time"
 
+	"github.com/wundergraph/astjson"
+
 	"gvh/c10lab"
 	"gvh/common"
 	fl "gvh/fedlab"
+	gplan "gvh/plan"
 )
 
 type opCase struct {
@@ -489,9 +492,129 @@ func probeMode(a map[string]string) {
 	}
 }
 
+// corr: hand-built deferred plans through the real postprocess (extractDeferFetches, buildDeferTree)
+// and the real Resolver.ResolveGraphQLDeferResponse; one line per (plan, payload, release order):
+//
+//	(c10corr DESCS (tree T) (root DNODE) (data JSON) (trace (f g) (r g)...) (frames "bytes"...) SUMS
+//	         (mode full|slice) (valid t|f) (status ok|panic|error|timeout) (compl n) (nofetch id...) (mut "labels"))
 func corrMode(a map[string]string) {
-	fmt.Fprintln(os.Stderr, "corr: not built yet")
-	os.Exit(2)
+	seed := common.ArgU64(a, "seed", 1)
+	n := common.ArgInt(a, "n", 100)
+	out := common.NewOut(a["out"])
+	defer out.Close()
+	r := common.NewRand(seed)
+	dist := map[string]int{}
+	for i := 0; i < n; {
+		wild := r.Chance(1, 6)
+		p := c10lab.GenDPlan(r, 3+r.Pick(2), wild)
+		if len(p.Descs) == 0 {
+			continue
+		}
+		// probe: a descriptor that owns no fetch
+		if r.Chance(1, 25) {
+			p.NoFetch[p.Descs[r.Pick(len(p.Descs))].ID] = true
+			dist["nofetch"]++
+		}
+		g := &gplan.Gen{R: r, MaxDepth: 4}
+		payloads := 1 + r.Pick(2)
+		for k := 0; k < payloads && i < n; k++ {
+			payload, labels := g.Payload(p.Root)
+			mode := "full"
+			primary := payload
+			slices := map[int]string{}
+			if len(labels) == 0 && r.Chance(1, 2) {
+				pr, sl, err := p.Slices(payload)
+				if err == nil {
+					mode, primary, slices = "slice", pr, sl
+				}
+			}
+			orders := 1 + r.Pick(3)
+			for o := 0; o < orders && i < n; o++ {
+				rr := common.NewRand(seed*977 + uint64(i))
+				run := p.Execute(primary, slices, func(step int, blocked []int) int { return rr.Pick(len(blocked)) })
+				line := corrLine(p, payload, mode, labels, run)
+				if line != "" {
+					out.Line(line)
+					i++
+					dist["mode."+mode]++
+					if wild {
+						dist["wild"]++
+					}
+					dist[fmt.Sprintf("descs=%d", min(len(p.Descs), 6))]++
+					dist[fmt.Sprintf("frames=%d", min(len(run.Rec.Frames), 6))]++
+					if len(labels) > 0 {
+						dist["mutated"]++
+					}
+				}
+			}
+		}
+	}
+	keys := make([]string, 0, len(dist))
+	for k := range dist {
+		keys = append(keys, k)
+	}
+	sort.Strings(keys)
+	var sb strings.Builder
+	for _, k := range keys {
+		fmt.Fprintf(&sb, "%s=%d ", k, dist[k])
+	}
+	fmt.Fprintln(os.Stderr, "DIST", sb.String())
+}
+
+func corrLine(p *c10lab.DPlan, payload, mode string, labels []string, run *c10lab.DRun) string {
+	pv, err := astjson.Parse(payload)
+	if err != nil {
+		return ""
+	}
+	status := "ok"
+	switch {
+	case run.Panic != "":
+		status = "panic"
+	case run.TimedOut:
+		status = "timeout"
+	case run.Err != nil:
+		status = "error"
+	}
+	s := &c10lab.Stream{Completes: run.Rec.Completes, Unflushed: len(run.Rec.Unflushed()), AfterDone: run.Rec.AfterDone, TimedOut: run.TimedOut}
+	frames := []string{"frames"}
+	for _, raw := range run.Rec.Frames {
+		s.Frames = append(s.Frames, c10lab.ParseFrame(raw))
+		frames = append(frames, common.QS(c10lab.AbstractFrame(raw)))
+	}
+	// every release is followed by the render of that group (the coordinator waits for quiescence)
+	trace := []string{"trace"}
+	for _, id := range run.Released {
+		trace = append(trace, common.L("f", common.I(id)), common.L("r", common.I(id)))
+	}
+	if mode == "slice" {
+		// a slice the resolver could not merge (list/null skeleton clash) is an artefact of the slicing
+		for _, fr := range frames[1:] {
+			if strings.Contains(fr, `\22k\22:99`) {
+				return ""
+			}
+		}
+	}
+	nof := []string{"nofetch"}
+	for id := range p.NoFetch {
+		nof = append(nof, common.I(id))
+	}
+	gof := []string{"go"}
+	for _, f := range append(c10lab.CheckFramesWhole(s), c10lab.CheckProtocol(s)...) {
+		gof = append(gof, common.L(f.Clause, q(f.Detail)))
+	}
+	recon := common.L("none", q("no parsable frames"))
+	if len(s.Frames) > 0 && s.Frames[0].ParseErr == "" {
+		rec, mf := c10lab.Reconstruct(s)
+		if len(mf) > 0 {
+			recon = common.L("none", q(mf[0].Detail))
+		} else if rec != nil {
+			recon = common.L("some", rec.Sexp())
+		}
+	}
+	return common.L("c10corr", p.DescsSexp(), common.L("tree", c10lab.TreeSexp(run.Tree)), common.L("root", p.Sexp()),
+		common.L("data", gplan.JSONSexp(pv)), common.L(trace...), common.L(frames...), frameSummary(s),
+		common.L("mode", mode), common.L("valid", common.B(p.Valid)), common.L("status", status), common.L("compl", common.I(run.Rec.Completes)),
+		common.L(nof...), common.L(gof...), common.L("recon", recon), common.L("mut", q(strings.Join(labels, ","))), common.L("panic", q(run.Panic)))
 }
 
 // ---------------------------------------------------------------- shrinking
